@@ -270,3 +270,114 @@ func VH_C20_MaxAge() {
 	vh.Assert(age <= 0 || c.maxAge >= age, "C20.maxage-not-below-age")
 	vh.Cover("C20.maxage")
 }
+
+// VH_C20_History: histories of K operations from the EMPTY cache built by New, with the
+// pruning goroutines that Set spawns left pending until a "settle" operation (or the
+// end): everything the step harness cannot see because it constructs the state directly
+// (state that only a real history produces, pruning that runs after later operations).
+// Symbolic: Count in {1,2}, expiry on or off, cleanup function absent / succeeding /
+// failing for one key, every operation and key (two keys + one extra for Count=2).  At
+// every quiescent point (all spawned goroutines done): with succeeding cleanups the cache
+// is within its limit; whatever disappeared had a successful cleanup; the expiry timer is
+// armed while entries remain; an entry used within the age is not expired by the timer.
+func VH_C20_History() {
+	k := vh.Param("K", 5)
+	vclock.Reset()
+	calls := &vhCalls{fail: map[string]bool{}, fnN: map[string]int{}, fnOK: map[string]bool{}, order: true}
+	count := 1 + vh.Choice("count", 2)
+	keys := vhKeys[:count+1]
+	age := time.Duration(0)
+	expiry := vh.Bool("expiry")
+	if expiry {
+		age = 10 * time.Second
+		k-- // the expiry alphabet is larger: one operation less
+	}
+	opts := Opts[string, *vhItem]{Age: age, Count: count}
+	fnMode := vh.Choice("cleanup", 3) // none, succeeds, fails for k0
+	hasFn := fnMode > 0
+	anyFail := fnMode == 2
+	if hasFn {
+		opts.PruneFn = calls.fn
+		opts.PrunePreFn = calls.pre
+		opts.PrunePostFn = calls.post
+		calls.fail["k0"] = anyFail
+	}
+	c := New(opts)
+	lastUse := map[string]int64{} // keys the history believes present -> last use
+	quiescent := func() {
+		vh.Sched()
+		for _, key := range keys {
+			if _, was := lastUse[key]; was && !vhHas(c, key) {
+				if hasFn {
+					vh.Assert(calls.fnOK[key], "C20.removed-without-successful-cleanup")
+				}
+				delete(lastUse, key)
+				calls.fnOK[key] = false
+			}
+		}
+		vh.Assert(calls.order, "C20.pre-fn-post-order")
+		if !anyFail {
+			vh.Assert(len(c.entries) <= count, "C20.pruned-to-limit")
+			vh.Cover("C20.history-limit-checked")
+		}
+		if len(c.entries) > 0 && c.maxAge > 0 {
+			vh.Assert(c.timer != nil && c.timer.Active(), "C20.timer-armed")
+		}
+	}
+	nOps := 3
+	if expiry {
+		nOps = 5
+	}
+	for step := 0; step < k; step++ {
+		vclock.Advance(time.Second)
+		op := vh.Choice("op", nOps)
+		switch op {
+		case 0: // Set
+			key := keys[vh.Choice("key", len(keys))]
+			c.Set(key, &vhItem{id: key})
+			vh.Assert(vhHas(c, key), "C20.set-present")
+			lastUse[key] = vclock.LastNs()
+		case 1: // Delete
+			key := keys[vh.Choice("key", len(keys))]
+			err := c.Delete(key)
+			if _, was := lastUse[key]; was && vhHas(c, key) {
+				vh.Assert(err != nil && hasFn && calls.fail[key], "C20.delete")
+			}
+			if _, was := lastUse[key]; was && !vhHas(c, key) {
+				if hasFn {
+					vh.Assert(calls.fnOK[key], "C20.removed-without-successful-cleanup")
+				}
+				delete(lastUse, key)
+				calls.fnOK[key] = false
+			}
+		case 2: // the pending pruning goroutines run now
+			quiescent()
+			vh.Cover("C20.history-settled")
+		case 3: // Get (a use)
+			key := keys[vh.Choice("key", len(keys))]
+			if _, err := c.Get(key); err == nil {
+				lastUse[key] = vclock.LastNs()
+			}
+		case 4: // time passes (1 s or 20 s) and every armed timer fires
+			if vh.Bool("far") {
+				vclock.Advance(20 * time.Second)
+			}
+			pending := len(c.entries) > count // a count eviction may still be pending
+			for _, t := range vclock.Armed() {
+				if f := t.Func(); f != nil {
+					f()
+				}
+			}
+			now := vclock.LastNs()
+			if !pending {
+				for key, t := range lastUse {
+					if now-t <= int64(age) {
+						vh.Assert(vhHas(c, key), "C20.expired-while-used-within-age")
+					}
+				}
+			}
+		}
+	}
+	quiescent()
+	vh.Cover("C20.history-end")
+}
